@@ -194,6 +194,28 @@ impl LightClientProtocol {
     {
         let (parent_chain_root, proof) = {
             let snapshot = self.shared.snapshot();
+            if last_block.is_genesis() {
+                // the genesis block has no parent chain: nothing before it can be proved
+                if !items_positions.is_empty() {
+                    let errmsg = "no block before the genesis block can be proved";
+                    return StatusCode::InvalidRequest.with_context(errmsg);
+                }
+                let verifiable_last_header = packed::VerifiableHeader::new_builder()
+                    .header(last_block.data().header())
+                    .uncles_hash(last_block.calc_uncles_hash())
+                    .extension(Pack::pack(&last_block.extension()))
+                    .build();
+                let content = T::new_builder()
+                    .set_last_header(verifiable_last_header)
+                    .set_proved_items(proved_items)
+                    .set_missing_items(missing_items)
+                    .build();
+                let message = packed::LightClientMessage::new_builder()
+                    .set(content)
+                    .build();
+                nc.reply(peer, &message).await;
+                return Status::ok();
+            }
             let mmr = snapshot.chain_root_mmr(last_block.number() - 1);
             let parent_chain_root = match mmr.get_root() {
                 Ok(root) => root,
